@@ -570,10 +570,11 @@ namespace c07
       if(s == S_CHEBYSHEV && !cheb_interval_ok) { in_scope = false; c.count("chebyshev_power_method_interval_misses_spectrum"); }
       if(generous && in_scope && !(op.kind == 0 && op.x0 != 0))
       {
-        LD ex = 0, nr = 0;
-        for(int i = 0; i < n; ++i) { LD e = LD(r.x[i]) - xref[op.rhs][i]; ex += e * e; nr += xref[op.rhs][i] * xref[op.rhs][i]; }
-        ex = sqrtl(ex); nr = sqrtl(nr);
-        const bool reached = xfinite && ex <= 1e-6L * cond * std::max(nr, LD(1e-30L)) * std::max<LD>(1.0L, LD(lim.tol_rel) / 1e-8L);
+        LD ex = 0, nr = 0, e0 = 0;
+        for(int i = 0; i < n; ++i) { LD e = LD(r.x[i]) - xref[op.rhs][i]; ex += e * e; nr += xref[op.rhs][i] * xref[op.rhs][i]; LD d = LD(x0[i]) - xref[op.rhs][i]; e0 += d * d; }
+        ex = sqrtl(ex); nr = sqrtl(nr); e0 = sqrtl(e0);
+        // ||e|| <= ||A^-1|| ||r|| <= cond * tol_rel * ||e_0||  (+ rounding level 1e-6*cond*||x_ref||)
+        const bool reached = xfinite && ex <= cond * (LD(lim.tol_rel) * 1.01L * e0 + 1e-6L * std::max(nr, LD(1e-30L)));
         if(r.st == Status::success) chk(c, reached, "solvers.success-but-far-from-reference " + sv, [&]{ char q[80]; snprintf(q, sizeof q, " | ||x-x_ref||=%.4Lg cond=%.3Lg", ex, cond); return why() + q; });
         else if(tr.fragile) { if(reached) c.count("lucky_breakdowns_accepted"); else { if(std::getenv("C07_STRICT_FRAGILE")) chk(c, false, "debug.fragile " + sn, why); c.count("fragile_method_breakdown_without_convergence"); c.count(std::string("breakdown-not-converged:") + sn + ":" + stname(r.st)); c.outcome(std::string("breakdown-not-converged ") + sn); } }
         else if((tr.conv_scope == 1 || tr.gmres_like) && r.st == Status::max_iter && xfinite && d_true <= 1e-3L * d0_true) c.count("slow_stationary_method_hit_max_iter_with_1e-3_reduction");
@@ -759,7 +760,7 @@ namespace c07
       "recomputation; then all two-operation histories with and without done/init in between (thorough: three operations) run on ONE solver object and are compared bitwise with the "
       "fresh results. All cases are non-trivial (a real solve); states = distinct (status, iterations, solution bits) observed per case";
     spec.assumptions = {
-      "oracle: own dense long double residuals / Gauss-Jordan reference solution; tolerances: reported defect vs true residual 1e-6*d0 + 1e4*eps*(|A||x|+|b|); x vs x_ref 1e-6*cond*|x_ref|",
+      "oracle: own dense long double residuals / Gauss-Jordan reference solution; tolerances: reported defect vs true residual 1e-6*d0 + 1e4*eps*(|A||x|+|b|); x vs x_ref cond*(tol_rel*|x0-x_ref| + 1e-6*|x_ref|)",
       "malloc'ed memory is poisoned with NaN bytes (glibc M_PERTURB / ASan malloc_fill_byte) so that reads of never-initialised solver vectors become visible",
       "IDR(s) runs with reset_shadow_space(false) (deterministic shadow space; the default seeds from time())",
       "min_iter >= max_iter switches the defect computation off by documented design (skip_defect_calc): there only status/iteration-count/history checks are made",
